@@ -28,6 +28,9 @@ def g_scalar(lon, lat):
 def g_scalar2(lon, lat):
     v = (50.0 * np.cos(2 * lon) + 80.0 * np.sin(lat) + 300.0).astype(np.float32)
     v[np.sin(5 * lon) * np.cos(3 * lat) > 0.3] = np.nan  # partly undefined: earlier data must survive there
+    # infinities are defined values: they must replace earlier data like any other
+    v[(np.cos(7 * lon) > 0.97) & (np.abs(lat) < 0.5) & ~np.isnan(v)] = np.inf
+    v[(np.cos(7 * lon) < -0.97) & (np.abs(lat) < 0.5) & ~np.isnan(v)] = -np.inf
     return v
 
 
@@ -118,6 +121,10 @@ def close_enough(got, want):
         ng, nw = np.isnan(got), np.isnan(want)
         if not np.array_equal(ng, nw):
             return "undefined pixels differ at %d positions" % int((ng != nw).sum())
+        ig, iw = np.isinf(got), np.isinf(want)
+        if not np.array_equal(ig, iw) or not np.array_equal(got[ig], want[iw]):
+            return "infinite (defined) pixels differ at %d positions" % int((ig != iw).sum() + (got[ig & iw] != want[ig & iw]).sum())
+        ng, nw = ng | ig, nw | iw
         d = np.abs(got[~ng].astype(np.float64) - want[~nw].astype(np.float64))
         if d.size and d.max() > 2e-4:
             return "values differ by up to %.4g (at %d pixels)" % (d.max(), int((d > 2e-4).sum()))
@@ -150,7 +157,9 @@ def serial_case(d, depth, planetary, fmt, mode, part):
     expected = {}
     try:
         with quiet():
-            if mode == "clobber":
+            if mode in ("clobber", "clobber-rgb"):
+                if mode == "clobber-rgb":
+                    sampler = "rgb"  # colour data into a numeric tile format (3-D arrays; FITS rows bottom-up)
                 toast.sample_layer(pio, SAMPLERS[sampler], depth, coordsys=cs, parallel=1)
                 for p in allpos:
                     expected[p] = expected_tile(*p, planetary, sampler)
@@ -421,8 +430,10 @@ def run(tier, seed):
     for depth in depths:
         for planetary in (False, True):
             for fmt in ("png", "npy", "fits"):
-                for mode in ("clobber", "update-all", "update-partial", "clobber-over-existing", "clobber-cap", "cli-allsky", "update-partial-rgba", "builder", "builder-filtered"):
+                for mode in ("clobber", "update-all", "update-partial", "clobber-over-existing", "clobber-cap", "cli-allsky", "update-partial-rgba", "builder", "builder-filtered", "clobber-rgb"):
                     if mode.startswith("builder") and (depth == 3 or (depth == 0 and mode == "builder-filtered")):
+                        continue
+                    if mode == "clobber-rgb" and (fmt == "png" or depth not in (1, 2)):
                         continue
                     if mode == "clobber-cap" and (fmt == "png" or depth < 2):
                         continue
